@@ -153,9 +153,12 @@ type tokBackend struct {
 	KeepReq  bool
 }
 
-func newTokBackend() (*tokBackend, error) {
+func newTokBackend() (*tokBackend, error) { return newTokBackendOn("127.0.0.1:0") }
+
+// newTokBackendOn starts the token backend on a given address (a backend that comes up late).
+func newTokBackendOn(addr string) (*tokBackend, error) {
 	b := &tokBackend{}
-	s, err := rawhttp.NewServer(b.handle)
+	s, err := rawhttp.NewServerOn(addr, b.handle)
 	if err != nil {
 		return nil, err
 	}
